@@ -116,12 +116,21 @@ pub fn parse_datetime(s: &str) -> Result<(NaiveDateTime, NaiveDateTime), String>
                     _ => Err("Error parsing date/time value: ".to_string() + s),
                 }
             } else if s.len() >= 2 && (s.starts_with("+") || s.starts_with("-")) {
-                let days = s.parse::<i64>().unwrap();
-                let date = Local::now().date_naive() + Duration::days(days);
-                let start = date.and_hms_opt(0, 0, 0).unwrap();
-                let finish = date.and_hms_opt(23, 59, 59).unwrap();
+                let date = s
+                    .parse::<i64>()
+                    .ok()
+                    .and_then(Duration::try_days)
+                    .and_then(|days| Local::now().date_naive().checked_add_signed(days));
 
-                Ok((start, finish))
+                match date {
+                    Some(date) => {
+                        let start = date.and_hms_opt(0, 0, 0).unwrap();
+                        let finish = date.and_hms_opt(23, 59, 59).unwrap();
+
+                        Ok((start, finish))
+                    }
+                    None => Err("Error parsing date/time value: ".to_string() + s),
+                }
             } else {
                 Err("Error parsing date/time value: ".to_string() + s)
             }
